@@ -51,6 +51,23 @@ def lean_closure_files(prop: str):
     return sorted(out)
 
 
+def import_closure(prop: str):
+    """the PedVerif modules the proof obligations of `prop` rest on: transitive `import PedVerif.*` closure of Props/<prop>.lean and
+    Audit/<prop>.lean (module names such as 'PedVerif.Gen.Retry')"""
+    seen, todo = set(), [f'PedVerif.Props.{prop}', f'PedVerif.Audit.{prop}']
+    while todo:
+        m = todo.pop()
+        if m in seen:
+            continue
+        seen.add(m)
+        f = os.path.join(LEAN, *m.split('.')) + '.lean'
+        if not os.path.exists(f):
+            continue
+        for imp in re.findall(r'^import\s+(PedVerif\.[A-Za-z0-9_.]+)', open(f).read(), flags=re.M):
+            todo.append(imp)
+    return seen
+
+
 def lean_stage(prop: str, tier: str) -> dict:
     """translator -> lake build driver -> lake build Props.<prop> -> axiom audit.  Returns a report; never raises for a
     broken proof (that is a finding of the run, not an internal error)."""
@@ -60,6 +77,14 @@ def lean_stage(prop: str, tier: str) -> dict:
     with Lock():
         import extract
         rep['translator'] = extract.run(REPO, os.path.join(LEAN, 'PedVerif', 'Gen'))
+        # a generated file that could not be regenerated (source outside the translator's subset) is the committed snapshot of the
+        # unchanged tree: the theorems resting on it are then NOT re-checked against what the code says now - for the properties whose
+        # proof obligations import that file this is a broken obligation (search for a failing input; else no-failing-input-found)
+        closure = import_closure(prop)
+        for fname, reason in sorted(rep['translator'].get('translation_skipped', {}).items()):
+            if 'PedVerif.Gen.' + fname[:-len('.lean')] in closure:
+                rep['proof_broken'].append({'what': f'translator: Gen/{fname} could not be regenerated from the current source ({reason}); '
+                                                    f'the theorems of {prop} that rest on it were checked against the snapshot of the unchanged tree only'})
         cmds = []
         rc, out = sh(['lake', 'build', 'peddriver'], cwd=LEAN)
         cmds.append('lake build peddriver')
